@@ -199,6 +199,8 @@ func runOnce(in Sx) Sx {
 		return runFactoryBuffer(in)
 	case 10:
 		return runDuplex(in)
+	case 11:
+		return runDirect(in)
 	case 6:
 		msg := lcg(in.At(6).Uint64(), in.At(7).AsInt())
 		one := func(key, iv []byte) (bool, []byte) {
@@ -307,7 +309,12 @@ func place(b []byte, mis int) []byte {
 // a copy whose capacity equals its length (key[:n] must fail when the key is too short)
 // pm places a message buffer at the misalignment derived from its seed (k distinguishes the
 // buffers of one case)
-func pm(b []byte, seed uint64, k int) []byte { return place(b, int((seed+uint64(k))%8)) }
+func pm(b []byte, seed uint64, k int) []byte {
+	if len(b) == 0 && seed%2 == 1 {
+		return nil // values are part of the input domain: the nil message
+	}
+	return place(b, int((seed+uint64(k))%8))
+}
 
 func exact(b []byte) []byte {
 	c := make([]byte, len(b))
@@ -348,31 +355,56 @@ func oracleTable(key, iv, msg []byte) []Sx {
 			stdcipher.NewCFBEncrypter(blk, exact(iv[:blk.BlockSize()])).XORKeyStream(ref, msg)
 			t = append(t, List(Int(sc.id), Int(int64(n)), Bytes(ref)))
 		}
-		if n == 32 {
-			var k32 [32]byte
-			var nonce [8]byte
-			copy(k32[:], key)
-			copy(nonce[:], iv)
-			ref := make([]byte, len(msg))
-			salsa20.XORKeyStream(ref, msg, nonce[:], &k32)
-			t = append(t, List(Int(6), Int(32), Bytes(ref)))
-		}
+	}
+	{
+		// salsa20 keyed as copy() into [32]byte / [8]byte does it (zero padded or truncated)
+		var k32 [32]byte
+		var nonce [8]byte
+		copy(k32[:], key)
+		copy(nonce[:], iv)
+		ref := make([]byte, len(msg))
+		salsa20.XORKeyStream(ref, msg, nonce[:], &k32)
+		t = append(t, List(Int(6), Int(32), Bytes(ref)))
 	}
 	return t
 }
 
 func runSlicing(in Sx) Sx {
-	name, key, iv := in.At(1).AsString(), in.At(2).AsBytes(), in.At(3).AsBytes()
+	name := in.At(1).AsString()
+	return runInstance(in, func(key, iv []byte) xcipher.BlockCryptor { return xcipher.NewCrypt(name, key, iv) })
+}
+
+// the exported constructors, by the names the model's new_direct uses
+var directCtors = map[string]func(key, iv []byte) xcipher.BlockCryptor{
+	"aes": xcipher.NewAESCFB, "3des": xcipher.NewTripleDES, "sm4": xcipher.NewSM4, "twofish": xcipher.NewTwofish,
+	"xtea": xcipher.NewXTEA, "salsa20": xcipher.NewSalsa20, "none": xcipher.NewNoneCrypt,
+}
+
+func runDirect(in Sx) Sx {
+	mk := directCtors[in.At(1).AsString()]
+	if mk == nil {
+		mk = func(key, iv []byte) xcipher.BlockCryptor { panic("no such constructor") }
+	}
+	return runInstance(in, mk)
+}
+
+// (_ _ key iv seed len) -> (ctor_panicked run_panicked enc dec table accessor_panicked Key() IV())
+func runInstance(in Sx, mk func(key, iv []byte) xcipher.BlockCryptor) Sx {
+	key, iv := in.At(2).AsBytes(), in.At(3).AsBytes()
 	msg := lcg(in.At(4).Uint64(), in.At(5).AsInt())
 	var a, b xcipher.BlockCryptor
-	cp, _ := Catch(func() {
-		a = xcipher.NewCrypt(name, exact(key), exact(iv))
-		b = xcipher.NewCrypt(name, exact(key), exact(iv))
+	cp := guard(20*time.Second, func() {
+		a = mk(exact(key), exact(iv))
+		b = mk(exact(key), exact(iv))
 	})
-	var enc, dec []byte
-	rp := false
+	var enc, dec, ka, va []byte
+	rp, accp := false, false
 	if !cp {
-		rp, _ = Catch(func() {
+		accp = guard(20*time.Second, func() {
+			ka = append([]byte{}, a.Key()...)
+			va = append([]byte{}, a.IV()...)
+		})
+		rp = guard(20*time.Second, func() {
 			enc = append([]byte{}, a.Encrypt(pm(msg, in.At(4).Uint64(), 0))...)
 			dec = append([]byte{}, b.Decrypt(pm(enc, in.At(4).Uint64(), 3))...)
 		})
@@ -380,7 +412,7 @@ func runSlicing(in Sx) Sx {
 	if rp {
 		enc, dec = nil, nil
 	}
-	return List(Bool(cp), Bool(rp), Bytes(enc), Bytes(dec), ListOf(oracleTable(key, iv, msg)))
+	return List(Bool(cp), Bool(rp), Bytes(enc), Bytes(dec), ListOf(oracleTable(key, iv, msg)), Bool(accp), Bytes(ka), Bytes(va))
 }
 
 // one secret, many names, one process: all instances are created first (in the given
@@ -422,7 +454,20 @@ func runFamily(in Sx) Sx {
 		if rp {
 			enc, dec = nil, nil
 		}
-		res[i] = List(Bool(cp[i]), Bool(rp), Bytes(enc), Bytes(dec))
+		res[i] = List(Bool(cp[i]), Bool(rp), Bytes(enc), Bytes(dec), Bytes(nil))
+	}
+	// the same message once more on every instance, in the reverse order, after all the
+	// others have been used (instances alive at once must not share scratch or key state)
+	for i := n - 1; i >= 0; i-- {
+		if cp[i] || res[i].At(1).AsBool() {
+			continue
+		}
+		var enc2 []byte
+		if guard(20*time.Second, func() { enc2 = append([]byte{}, encI[i].Encrypt(pm(msg, in.At(4).Uint64(), i+5))...) }) {
+			res[i] = List(Bool(false), Bool(true), Bytes(nil), Bytes(nil), Bytes(nil))
+			continue
+		}
+		res[i] = List(res[i].At(0), res[i].At(1), res[i].At(2), res[i].At(3), Bytes(enc2))
 	}
 	return List(ListOf(res), ListOf(oracleTable(key, iv, msg)))
 }
@@ -483,6 +528,9 @@ func runToy(in Sx) Sx {
 			switch kind % 3 {
 			case 0, 2:
 				src = place(lcg(o.At(1).Uint64(), o.At(2).AsInt()), mis)
+				if len(src) == 0 && o.At(1).Uint64()%2 == 1 {
+					src = nil // the nil message
+				}
 			case 1:
 				j := o.At(1).AsInt()
 				mis = (3*j + 1) % 8
@@ -576,7 +624,7 @@ func (g *genState) session(kind string, bs int, lens []int, ivlen, eblen, dblen 
 	var encIdx []int
 	for _, n := range lens {
 		encIdx = append(encIdx, len(ops))
-		ops = append(ops, opEnc(uint64(rng.Intn(1<<31)), n))
+		ops = append(ops, opEnc(uint64(rng.Intn(1<<16)), n))
 		if rng.Chance(1, 4) && len(encIdx) > 0 { // decrypt something early, between encryptions
 			ops = append(ops, opDecOf(encIdx[rng.Intn(len(encIdx))]))
 			g.out.Count("op:dec-interleaved")
@@ -599,7 +647,7 @@ func (g *genState) session(kind string, bs int, lens []int, ivlen, eblen, dblen 
 			g.out.Count("op:dec-duplicate")
 		}
 		if rng.Chance(1, 10) {
-			ops = append(ops, opDec(uint64(rng.Intn(1<<31)), rng.PickInt(0, 1, bs-1, bs, bs+1, 8*bs, 8*bs+3, rng.Intn(200))))
+			ops = append(ops, opDec(uint64(rng.Intn(1<<16)), rng.PickInt(0, 1, bs-1, bs, bs+1, 8*bs, 8*bs+3, rng.Intn(200))))
 			g.out.Count("op:dec-raw")
 		}
 	}
@@ -827,6 +875,13 @@ func gen(a Args, out *Out) {
 		g.session("short-buf", bs, []int{rng.Intn(100)}, bs, bs, bs+rng.Intn(bs))
 		g.session("bad-block-size", rng.PickInt(1, 4, 12, 24, 32), []int{rng.Intn(100)}, 48, 32, 64)
 	}
+	for s := 0; s < 6; s++ { // unsupported block size reached through decrypt
+		bs := rng.PickInt(1, 4, 12, 24, 32)
+		in := List(Int(0), Int(int64(bs)), Int(int64(rng.Intn(256)|1)), Bytes(rng.Bytes(bs)), Bytes(rng.Bytes(48)), Bytes(rng.Bytes(32)), Bytes(rng.Bytes(64)),
+			List(opDec(uint64(rng.Intn(1<<16)), rng.Intn(100))))
+		out.Case("bad-block-size", true, in, run(in))
+	}
+	directCases(a, out, rng.Fork())
 	// stream cipher and none
 	nstream := 120
 	if a.Thorough() {
@@ -834,9 +889,9 @@ func gen(a Args, out *Out) {
 	}
 	for s := 0; s < nstream; s++ {
 		n := rng.PickInt(0, 1, 63, 64, 65, 127, 128, 129, rng.Intn(300), rng.Intn(300), rng.Intn(2000))
-		in := List(Int(1), Bytes(rng.Bytes(32)), Bytes(rng.Bytes(rng.Range(8, 48))), Uint(uint64(rng.Intn(1<<31))), Int(int64(n)))
+		in := List(Int(1), Bytes(rng.Bytes(32)), Bytes(rng.Bytes(rng.Range(8, 48))), Uint(uint64(rng.Intn(1<<16))), Int(int64(n)))
 		out.Case("salsa20", n > 0, in, run(in))
-		in = List(Int(2), Uint(uint64(rng.Intn(1<<31))), Int(int64(n)))
+		in = List(Int(2), Uint(uint64(rng.Intn(1<<16))), Int(int64(n)))
 		out.Case("none", n > 0, in, run(in))
 	}
 	// the stock CFB stream over the toy block (correspondence of the model std_cfb)
@@ -964,10 +1019,32 @@ func familyCases(a Args, out *Out, rng *Rng) {
 	}
 }
 
+// the exported constructors called directly, with every key length 0..40 (the refusal of a
+// wrong key size is the constructor's log.Panicf branch) and ivs of every interesting length
+func directCases(a Args, out *Out, rng *Rng) {
+	ctors := []string{"aes", "3des", "sm4", "twofish", "xtea", "salsa20", "none"}
+	for _, c := range ctors {
+		for kl := 0; kl <= 40; kl++ {
+			if !a.Thorough() && kl%8 != 0 && kl%8 != 1 && kl%8 != 7 && !rng.Chance(1, 6) {
+				continue
+			}
+			il := rng.PickInt(0, 7, 8, 9, 15, 16, 17, 24, 48, 16, 48)
+			in := List(Int(11), Str(c), Bytes(rng.Bytes(kl)), Bytes(rng.Bytes(il)), Uint(uint64(rng.Intn(1<<16))), Int(int64(rng.PickInt(0, 0, 1, 17, 33, rng.Range(17, 40)))))
+			obs := run(in)
+			out.Case("direct", true, in, obs)
+			if obs.At(0).AsBool() {
+				out.Count("direct:constructor-panics")
+			} else {
+				out.Count("direct:made")
+			}
+		}
+	}
+}
+
 // factory slicing: keys and ivs of every interesting length; pairs differing in one byte
 func slicingCases(a Args, out *Out, rng *Rng) {
 	names := []string{"aes-128", "aes-192", "aes-256", "", "sm4", "twofish", "3des", "xtea", "salsa20", "none",
-		"AES-128", "aes-512", "des", "chacha20"}
+		"AES-128", "aes-512", "des", "chacha20", "aes-12", "aes-1280", "aes-128 ", "3des\x00", "none ", "twofis", "xteaa", "salsa2", "SM4", "aes-192/aes-128"}
 	keyLens := []int{0, 8, 15, 16, 17, 23, 24, 25, 31, 32, 33, 40}
 	ivLens := []int{0, 7, 8, 9, 15, 16, 17, 24, 48}
 	per := 10
